@@ -297,7 +297,8 @@ pub fn run(r: &Report) {
                         mcx::slot::beat();
                     }
                     for neg in [false, true] {
-                        calls += check_one(r, sub, &ts, neg, lo, W::W4, true);
+                        // the full 2^32 sweep runs the accessors; every 17th argument runs all targets
+                        calls += check_one(r, sub, if lo % 17 == 0 { &ts } else { &ts[..8] }, neg, lo, W::W4, true);
                         cases += 1;
                     }
                     for hi in [0u64, 1, 0x7fff_ffff, 0x8000_0000, 0xffff_ffff] {
